@@ -29,8 +29,8 @@ Clauses(i) ==
          [ luck |-> e.luck = SpiritLuck(e.i) /\ e.gi = e.i,
            size |-> e.size = SpiritCount /\ e.tsize = ActivityCount ]
     [] e.k = "via" ->
-         [ dayGods   |-> e.g1 = e.wg /\ e.g2 = e.wg /\ Len(e.wg) >= 1 /\ InList(e.wg, SpiritCount),
-           dayTaboo  |-> e.a1 = e.wa /\ e.a2 = e.wa /\ e.b1 = e.wb /\ e.b2 = e.wb /\ InList(e.wa, ActivityCount) /\ InList(e.wb, ActivityCount),
+         [ dayGods   |-> e.g1 = e.wg /\ e.g2 = e.wg /\ e.g3 = e.wg /\ Len(e.wg) >= 1 /\ InList(e.wg, SpiritCount),
+           dayTaboo  |-> e.a1 = e.wa /\ e.a2 = e.wa /\ e.a3 = e.wa /\ e.b1 = e.wb /\ e.b2 = e.wb /\ e.b3 = e.wb /\ InList(e.wa, ActivityCount) /\ InList(e.wb, ActivityCount),
            hourTaboo |-> e.ha1 = e.wha /\ e.ha2 = e.wha /\ e.hb1 = e.whb /\ e.hb2 = e.whb /\ InList(e.wha, ActivityCount) /\ InList(e.whb, ActivityCount) ]
     [] e.k = "kg" ->
          [ total  |-> e.ok = 1,
